@@ -134,7 +134,12 @@ inductive HOp
   | script (da : Nat) (l : List Retrieve.Fetch)           -- outcomes of the next fetch attempts at DA height `da`
   | run                                                   -- all loops run until quiescent
   | runHeld (hdrFirst : Bool) (hold : Nat)                -- ... in the schedule `sched`, `hold` events never handled
-  | p2p (es : List Retrieve.Event)                        -- headers / data handed over by the P2P store loops
+  | p2p (es : List Retrieve.Event)                        -- headers / data handed to the sync loop directly
+  /-- items arrive in the node's P2P header / data stores (go-header), then `HeaderStoreRetrieveLoop` and
+  `DataStoreRetrieveLoop` poll once each (`hdrFirst`: which of them first), everything runs until quiescent -/
+  | p2pstore (hs : List (SignedHeader × Retrieve.Oracle)) (ds : List Data) (hdrFirst : Bool)
+  /-- items arrive in the P2P stores while nobody polls (between two polls, or while the node is down) -/
+  | p2padd (hs : List (SignedHeader × Retrieve.Oracle)) (ds : List Data)
   | restart                                               -- clean stop and restart
   | crash (k : Nat)                                       -- the process dies after `k` of the last writes; restart
   deriving Inhabited
@@ -150,7 +155,29 @@ structure HSt where
   dMarks : List (Bytes × Nat) := []      -- `dataCache.daIncluded` (data commitment ↦ DA height)
   daInc : Nat := 0                        -- `daIncludedHeight`
   finals : List Nat := []                 -- `SetFinal` calls received by the execution layer since the last start
+  hStore : List (SignedHeader × Retrieve.Oracle) := []   -- P2P header store: heights initialHeight, initialHeight+1, …
+  dStore : List Data := []                -- P2P data store
+  hCur : Nat := 0                         -- `lastHeaderStoreHeight` of `HeaderStoreRetrieveLoop`
+  dCur : Nat := 0                         -- `lastDataStoreHeight` of `DataStoreRetrieveLoop`
   deriving Inhabited
+
+/-- one poll of `HeaderStoreRetrieveLoop`: if the store is ahead of the cursor, every height in (cursor, store height]
+is fetched and — if `isUsingExpectedSingleSequencer` admits it — handed to the sync loop; the cursor becomes the
+store height in any case -/
+def pollH (c : Cfg) (s : HSt) : List Retrieve.Event × Nat :=
+  let base := c.sync.initialHeight - 1
+  let sH := base + s.hStore.length
+  (if sH > s.hCur then
+     (s.hStore.drop (s.hCur - base)).filterMap fun (w, o) =>
+       if Retrieve.p2pAdmit o c.sync.proposerAddr w then some (Retrieve.Event.hdr w s.nd.cursor) else none
+   else [], sH)
+
+/-- one poll of `DataStoreRetrieveLoop` (data carries no signature: nothing is checked) -/
+def pollD (c : Cfg) (s : HSt) : List Retrieve.Event × Nat :=
+  let base := c.sync.initialHeight - 1
+  let sD := base + s.dStore.length
+  (if sD > s.dCur then (s.dStore.drop (s.dCur - base)).map fun d => Retrieve.Event.dat { data := d } s.nd.cursor
+   else [], sD)
 
 /-- `DAIncluderLoop` runs until it cannot advance (`Submit.includerIter`); its writes follow those of the sync loop -/
 def includeSt (s : HSt) : HSt :=
@@ -162,8 +189,10 @@ def includeSt (s : HSt) : HSt :=
 def started (c : Cfg) (s : HSt) (disk : Store) (keepMarks : Bool) : Option (Node × List SW) → HSt
   | none => { s with ok := false }
   | some (nd, ws) =>
+    -- the store loops start with the chain height as cursor; the P2P stores themselves are on disk
     { s with nd := nd, before := disk, ws := ws, ok := true, daInc := daIncOf c nd.full.store, finals := [],
-             hMarks := if keepMarks then s.hMarks else [], dMarks := if keepMarks then s.dMarks else [] }
+             hMarks := if keepMarks then s.hMarks else [], dMarks := if keepMarks then s.dMarks else [],
+             hCur := nd.full.store.height, dCur := nd.full.store.height }
 
 def hstep (c : Cfg) (s : HSt) : HOp → HSt
   | .place da b o => { s with v := { s.v with placed := s.v.placed ++ [(da, b, o)], top := max s.v.top (da + 1) } }
@@ -185,6 +214,14 @@ def hstep (c : Cfg) (s : HSt) : HOp → HSt
     if !s.ok then s else
     let f := feed c s.nd.full es
     includeSt { s with nd := { s.nd with full := f.1 }, before := s.nd.full.store, ws := f.2 }
+  | .p2padd hs ds => { s with hStore := s.hStore ++ hs, dStore := s.dStore ++ ds }
+  | .p2pstore hs ds hf =>
+    if !s.ok then s else
+    let s1 := { s with hStore := s.hStore ++ hs, dStore := s.dStore ++ ds }
+    let ph := pollH c s1
+    let pd := pollD c s1
+    let f := feed c s.nd.full (if hf then ph.1 ++ pd.1 else pd.1 ++ ph.1)
+    includeSt { s1 with nd := { s.nd with full := f.1 }, before := s.nd.full.store, ws := f.2, hCur := ph.2, dCur := pd.2 }
   | .restart => if !s.ok then s else started c s s.nd.full.store true (restartClean c s.nd)
   | .crash k => if !s.ok then s else started c s (s.before.applyPrefix k s.ws) false (restartCrash c s.before s.ws k)
 
